@@ -369,6 +369,9 @@ theorem inv_step (s : St) (h : Inv s) (i : In) : Inv (step s i).1 := by
     split
     · exact h.frame rfl rfl rfl rfl
     · exact h
+  | pongRaises =>
+    simp only [step]
+    exact h.frame rfl rfl rfl rfl
   | keysFlushed =>
     simp only [step]
     split
@@ -508,6 +511,9 @@ theorem announcements (s : St) (h : Inv s) (i : In) :
   | pong fresh =>
     simp only [step]
     split <;> exact ann_silent s _ rfl (by simp)
+  | pongRaises =>
+    simp only [step]
+    exact ann_silent s _ rfl (by simp [Silent])
   | keysFlushed =>
     simp only [step]
     split
@@ -580,6 +586,9 @@ theorem no_write_when_down (s : St) (h : Inv s) (i : In) (d : Nat) (hw : Out.wri
   | pong fresh =>
     simp only [step] at hw
     split at hw <;> simp at hw
+  | pongRaises =>
+    simp only [step] at hw
+    simp at hw
   | keysFlushed =>
     simp only [step] at hw
     split at hw
@@ -778,6 +787,7 @@ theorem step_unknownErrRaises (s : St) (i : In) : (step s i).1.unknownErrRaises 
   | pong fresh =>
     simp only [step]
     split <;> rfl
+  | pongRaises => rfl
   | keysFlushed =>
     simp only [step]
     split
@@ -887,6 +897,9 @@ theorem step_keep (s : St) (i : In) (hk : i ≠ .keysFlushed) (hl : i ≠ .loop)
     split
     · exact ⟨rfl, rfl, Nat.le_refl _⟩
     · exact Keep.refl s
+  | pongRaises =>
+    simp only [step]
+    exact ⟨rfl, rfl, Nat.le_refl _⟩
   | keysFlushed => exact absurd rfl hk
   | loop => exact absurd rfl hl
   | appSend =>
@@ -1081,5 +1094,34 @@ theorem drain_keepalive (n : Nat) : ∀ (s : St), n ≤ s.pendingDown → 0 < n 
       simp [drain, h1.1, h1.2.1, h1.2.2.2]
     · have := ih (loopOne s).1 (by rw [h1.2.2.1]; omega) (by omega)
       simp [this.1, this.2.1, this.2.2]
+
+/-! ### answered keep-alive rounds, with or without a raising application callback -/
+
+theorem pong_answers (t : St) (raises : Bool) :
+    (step t (if raises then .pongRaises else .pong true)).1.pingThread = t.pingThread ∧
+    (step t (if raises then .pongRaises else .pong true)).1.outstanding = 0 ∧
+    (∀ d, Out.closed d ∉ (step t (if raises then .pongRaises else .pong true)).2) := by
+  cases raises <;> simp [step]
+
+theorem answered_rounds_never_close (rs : List Bool) : ∀ (s : St), Inv s → s.pingThread = true → s.outstanding = 0 →
+    (∀ d, Out.closed d ∉ (run s (answeredRounds rs)).2) ∧ (run s (answeredRounds rs)).1.outstanding = 0 ∧
+    (run s (answeredRounds rs)).1.pingThread = true := by
+  induction rs with
+  | nil => intro s _ ht ho; simp [answeredRounds, run, ht, ho]
+  | cons r rs ih =>
+    intro s h ht ho
+    have h1 := ping_answered_never_closes s h ht ho
+    have h2 := pong_answers (step s .pingTick).1 r
+    rw [h1.2.2.2] at h2
+    have hi : Inv (step (step s .pingTick).1 (if r then .pongRaises else .pong true)).1 := inv_step _ (inv_step _ h _) _
+    have := ih _ hi h2.1 h2.2.1
+    simp only [answeredRounds, run]
+    refine ⟨?_, this.2.1, this.2.2⟩
+    intro d hd
+    simp only [List.mem_append] at hd
+    rcases hd with hd | hd | hd
+    · exact h1.1 d hd
+    · exact h2.2.2 d hd
+    · exact this.1 d hd
 
 end Yow.Life
